@@ -309,7 +309,7 @@ public:
 
         class  current_awaiter: public co_awaiter {
         public:
-            current_awaiter():co_awaiter(*_current) {}
+            current_awaiter() {_owner = _current;}
             static bool await_ready() {
                 thread_pool *c = _current;
                 return c == nullptr || c->is_stopped();
